@@ -2,6 +2,7 @@ package main
 
 import (
 	"fmt"
+	"strings"
 
 	"golang.org/x/tools/go/ssa"
 )
@@ -236,6 +237,35 @@ func runC12(c *Ctx) {
 		}
 		c.check(good && n > 0, rule, "(*ClientTransportMgr).RemoveTransport/exact-key", w.pos(f.Pos()), "the entry removed is the one stored under getFullAddr(...)", "RemoveTransport does not delete exactly the entry stored under its key (a prefix or pattern match over the table also drops the entries of other open transactions to the same address - z9hG4bK-t1 is a prefix of z9hG4bK-t10 - whose responses then leave on a newly dialled connection)")
 	}
+	// census of removals: an entry of the table leaves it in two ways only - under its own key (getFullAddr(...), above),
+	// or in the sweep of expired entries. Any other delete (a purge "of the peer's old entries" by address prefix when a
+	// connection is accepted) also removes the entries of pending transactions of other, live connections: their
+	// responses then find no entry and leave on a newly dialled connection.
+	nDel := 0
+	for _, fn := range w.All {
+		if !w.isMain(fn) || fn.Blocks == nil {
+			continue
+		}
+		k := 0
+		eachInstr(fn, func(in ssa.Instruction) {
+			call, isCall := in.(*ssa.Call)
+			if !isCall {
+				return
+			}
+			if bi, ok := call.Call.Value.(*ssa.Builtin); !ok || bi.Name() != "delete" {
+				return
+			}
+			if _, isT := isLoadOf(call.Call.Args[0], "ClientTransportMgr.transports"); !isT {
+				return
+			}
+			nDel++
+			k++
+			name := w.fname(fn)
+			ok := w.resultOfCallTo(call.Call.Args[1], "(*ClientTransportMgr).getFullAddr", 0) != nil || strings.HasSuffix(name, ".cleanExpiredTransport")
+			c.check(ok, rule, fmt.Sprintf("%s/delete-census#%d", name, k), w.ipos(call), "entries leave the table under their own key or in the expiry sweep", name+" deletes entries of the client transport table that are selected neither by their own key (getFullAddr) nor by the expiry sweep: entries of pending transactions of other connections go with them, and their responses leave on a newly dialled connection instead of the connection of the request")
+		})
+	}
+	c.check(nDel >= 2, rule, "transports/delete-census", "-", "removal by key and sweep found", fmt.Sprintf("only %d delete sites on the client transport table found", nDel))
 	if gf := c.fn(rule, "(*ClientTransportMgr).getFullAddr"); gf != nil {
 		// injective in its components: protocol://host:port[-transId]
 		isTCP := func(a Atom) bool { return a.Kind == "eqstr" && a.Str == "tcp" && isParam(gf, a.X, 1) }
